@@ -321,15 +321,28 @@ class Body:
                     rv = d[3]
                     if rv.get("agg") == "adt" and rv.get("variant") in ("Ok", "Err"):
                         tag = rv["variant"]
+                    elif "use" in rv and "const" in rv["use"] and "bool" in rv["use"]["const"]:
+                        tag = "true" if rv["use"]["const"]["bool"] else "false"
                 elif d[0] == "call" and d[2].fn == "core::ops::try_trait::FromResidual::from_residual":
                     tag = "Err"
-                if tag:
-                    defs_tag[d[1]] = (ret, tag)
+                # an uninterpretable definition resets the knowledge (tag None)
+                defs_tag[d[1]] = (ret, tag)
             for bb in self.normal_blocks():
                 if self.blocks[bb]["term"]["k"] != "switch":
                     continue
                 si = self.switch_info(bb)
-                if not si or si["kind"] != "variant":
+                if not si:
+                    continue
+                if si["kind"] == "bool":
+                    x = si["cond"]
+                    n = 0
+                    while x[0] in ("ref", "deref") and n < 6:
+                        x = x[1]
+                        n += 1
+                    if x[0] in ("local", "phi") and x[1] in (ret, dest):
+                        sw_tag[bb] = (ret, {lab: ("true" if mean else "false") for (t, lab, mean) in si["edges"] if isinstance(mean, bool)})
+                    continue
+                if si["kind"] != "variant":
                     continue
                 cond = si["cond"]
                 # Try::branch(dest) / discriminant(dest)
@@ -384,7 +397,7 @@ class Body:
         while dq:
             b, tag = dq.popleft()
             if b in defs_tag:
-                tag = defs_tag[b]
+                tag = defs_tag[b] if defs_tag[b][1] is not None else None
             for (t, lab) in self.succ(b):
                 if t in removed_blocks or (b, t) in removed_edges or (b, t, lab) in removed_edges:
                     continue
@@ -412,14 +425,14 @@ class Body:
         if self.j.get("corr") and bb in self._corr_tables()[0]:
             # keep the constructor knowledge established in bb itself
             defs_tag, sw_tag = self._corr_tables()
-            tag = defs_tag[bb]
+            tag = defs_tag[bb] if defs_tag[bb][1] is not None else None
             seen = set()
             dq = deque((s, tag) for s in starts)
             seen.update(dq)
             while dq:
                 b, tg = dq.popleft()
                 if b in defs_tag:
-                    tg = defs_tag[b]
+                    tg = defs_tag[b] if defs_tag[b][1] is not None else None
                 for (t, lab) in self.succ(b):
                     if t in removed_blocks or (b, t) in removed_edges or (b, t, lab) in removed_edges:
                         continue
